@@ -223,8 +223,36 @@ def hint_builder(ctx):
     return c
 
 
+def area_end_invariant(ctx):
+    """start + length of an area never overflows if every function that creates or resizes an area refuses
+    (touches nothing) when checked_add(start, len) is None. Decided by interpreting both lifecycle functions with
+    the checked sum forced to None. Together with C10.who (only they write start/length) this is a type invariant."""
+    facts = ctx.facts
+    oks = []
+    for nme, args in (("mem_init_area_named", lambda: [P.self_ref(True), A.W(("start",), 64), ("datavec",), ("name",)]),
+                      ("mem_resize_section", lambda: [P.self_ref(True), A.W(("start_addr",), 64), A.W(("new_size",), 64)])):
+        body = facts.method(AXE, nme)
+        seen_checked = [False]
+
+        def icpt(I, path, frame, t, name, a):
+            if name == "core::num::<impl u64>::checked_add":
+                seen_checked[0] = True
+                return [(A.NONE, path)]
+            return None
+        mp = M.MemPrims(facts, extra=icpt)
+        I = A.Interp(facts, intercept=mp.intercept)
+        outs = list(I.run(body, args(), A.Path()))
+        clean = seen_checked[0] and outs and all(
+            ((o.kind == "return" and is_err(o)) or (o.kind == "panic" and o.cls == "D")) and
+            not any(e[0] in ("mutcall", "store") for e in o.path.events) for o in outs)
+        oks.append((nme, bool(clean)))
+    return all(v for _, v in oks), oks
+
+
 def total(ctx):
     ck, facts = ctx.check, ctx.facts
+    inv_ok, inv_detail = area_end_invariant(ctx)
+    ck.cov["area_end_invariant"] = {"holds": inv_ok, "lifecycle": inv_detail}
     targets = []
     for api, body, bit, mkargs, extents in C09.accessor_specs(ctx):
         targets.append((api, body, mkargs, extents))
@@ -242,6 +270,8 @@ def total(ctx):
             for ev, verdict, reason in PN.triage(o.path, tainted):
                 site = (ev[4], ev[1], ev[2])
                 nsites.add(site)
+                if verdict == "reported" and inv_ok and is_area_end_sum(ev):
+                    verdict, reason = "discharged", "area-end invariant (checked at every creation/resize)"
                 if verdict == "reported":
                     desc = PN.describe(ev)
                     reported.setdefault(desc, (ev, reason))
@@ -256,6 +286,13 @@ def total(ctx):
         ck.cov.setdefault("arith_sites", {})[api] = len(nsites)
     ck.cov["undischarged_not_reported"] = sorted(
         "%s %s: %s" % (a, s, v[1]) for (a, s), v in seen_sites.items() if v[0] == "not-reported")[:40]
+
+
+def is_area_end_sum(ev):
+    ops = ev[3]
+    a, b = ops.get("a"), ops.get("b")
+    return ev[1] == "Overflow" and ev[2] == "Add" and a is not None and b is not None and \
+        M.is_area_field(a, "start") and M.is_area_field(b, "length")
 
 
 def invariant(ctx):
